@@ -97,7 +97,13 @@ class SectionNode:
         self.title = title
         self.parent = parent
         self.settings = settings
-        if data:
+        if isinstance(data, dict):
+            # "keyword value" lines, just the keyword if there is no value
+            self.data = [
+                str(key) if val is None else f"{key} {val}"
+                for key, val in data.items()
+            ]
+        elif data:
             self.data = list(data)
         else:
             self.data = []
@@ -282,7 +288,10 @@ def update_node(
         for line in node.data:
             key = line.split()[0]
             if key in data:
-                new_data.append(f"{key} {data[key]}")
+                if data[key] is None:
+                    new_data.append(str(key))
+                else:
+                    new_data.append(f"{key} {data[key]}")
                 done.add(key)
             else:
                 new_data.append(line)
